@@ -26,6 +26,9 @@ CLAIMED = {
     "C07": dict(cat="model_checking", tech="IcyDraw chunk/record codec specified in TLA+ from ICEDFormat.md (IcyDraw.tla), decode o encode model-checked; TLC-enumerated geometry x flag x row-shape cases and seeded documents saved/reloaded; DocEq judged by TLC, spec decoder of the chunk payloads as model layer",
                 text="IcyDraw.tla decodes header, layer records, cell records (short/long/invisible/end-of-row), continuation chunks, palette, SAUCE and font chunks; TLC checks Decode(Encode(l)) = l for all layers <= 3x2 over six cell classes and decoder totality; 1555 row shapes, 31104 geometry x flag cases (sampled in quick) and seeded 1-6 layer documents are saved losslessly and reloaded; the reloaded document is compared field by field with the source (DocEq) by TLC, and the spec decoder of the recorded chunk payloads must agree with both.",
                 note="PNG framing, zlib and base64 are unwrapped by the harness with the same crates; continuation chunks (> 3 MB) only in R1", ref="4/C07"),
+    "C08": dict(cat="model_checking", tech="TLA+ model of the undo/redo stacks with nested atomic groups over opaque documents (Undo.tla), model-checked; every history shape exported by TLC instantiated with 66 public editing operations; recorded document digests validated against the model by TLC",
+                text="Undo.tla models doc / past / future / open groups; TLC checks UnwindRestores, RewindRestores, EditClearsRedo, GroupIsOneStep on >1M states; 21868 TLC history shapes (edit, undo, redo, begin/end group) are instantiated with 66 operations x 213 parameter vectors on 8 seed documents (pairs, triples, random histories up to 40 steps); after every call the undo stack length, can_redo and a digest of the observational snapshot are recorded; Trace_Undo judges that each undo returns the digest recorded before the edit and each redo the one after, that undo/redo never fail, and that a new edit discards redo.",
+                note="documents are compared through a digest of the observational snapshot (every cell via get_char, sizes, offsets, properties, palette, fonts, SAUCE); histories are cut at the first operation that reports an error", ref="4/C08"),
     "C09": dict(cat="model_checking", tech="caret-in-screen / fixed-grid invariants evaluated by TLC on the recorded geometry after every character (Trace_Term)",
                 text="After every character of every generated stream (until a resize request) the recorded caret, terminal size and buffer size must satisfy CaretInScreen, and Viewdata/Mode 7 the fixed 40x24 grid; evaluated by TLC on traces of the real engine. Bounded/sampled exploration of the input space.",
                 note="geometry read through the public API after each character", ref="4/C09"),
